@@ -19,7 +19,7 @@ ASSUMPTIONS = ['text-only definitions have no deepest element: no >b pair for th
                'whether a definition has a single top-level node is decided on its text (operators outside brackets, braces and quotes)',
                'user tables reference only their own names, so the nesting bound is the number of user snippets',
                'termination decided on logical steps (20M line events)']
-FLOORS = {'quick': {'parse-options-pair': 60, 'builtin-pair': 6000, 'multi-top-pair': 150, 'user-table': 4000, 'user-chain-pair': 1500, 'sibling-pair': 20000}, 'thorough': {'parse-options-pair': 60, 'builtin-pair': 6000, 'multi-top-pair': 150, 'user-table': 180000, 'user-chain-pair': 100000, 'sibling-pair': 500000}}
+FLOORS = {'quick': {'numbering-pair': 50, 'parse-options-pair': 60, 'builtin-pair': 6000, 'multi-top-pair': 150, 'user-table': 4000, 'user-chain-pair': 1500, 'sibling-pair': 20000}, 'thorough': {'numbering-pair': 50, 'parse-options-pair': 60, 'builtin-pair': 6000, 'multi-top-pair': 150, 'user-table': 180000, 'user-chain-pair': 100000, 'sibling-pair': 500000}}
 REQUIRED_MONITORS = ['oracle:alias-equals-definition', 'oracle:multi-top', 'oracle:alias-repeater-governs', 'oracle:context-independent', 'termination:bounded', 'probe:resolve-depth']
 SYNTAXES = ['html', 'xsl', 'pug', 'jsx', 'xml', 'haml', 'slim']
 NTABLES = {'quick': 700, 'thorough': 12000}
@@ -338,6 +338,19 @@ def run_shard(desc, ctx):
                         ctx.violation('alias-repeater-not-applied', case, {'opens_with_fixed_words': flags, 'expected': want, 'output': r[1][:200]})
                     else:
                         ctx.seen(('alias-repeat-lorem', ab, syntax))
+            # numbering. D1: `$` written on the ALIAS (or in a definition that no repeater surrounds) is numbered like anywhere else.
+            # D2: `$` written INSIDE a definition, with a repeater on or around the alias - "the definition in its place" is numbered by that repeater
+            ntbl = {'na': 'x-a.i$', 'nb': 'x-a{t$$}>x-b[k=$]', 'nc': 'x-a.i$@3+x-c', 'nd': 'x-a.i$*2', 'pl': 'x-a.q>x-b'}
+            D1 = [('pl.c$*3', 'x-a.q.c$*3>x-b'), ('pl[k=$$]*2', 'x-a.q[k=$$]*2>x-b'), ('x-p*2>pl{t$}', 'x-p*2>x-a.q{t$}>x-b'), ('(pl.c$@-+x-z)*3', '((x-a.q.c$@->x-b)+x-z)*3'),
+                  ('na', 'x-a.i$'), ('x-p>nb', 'x-p>x-a{t$$}>x-b[k=$]'), ('nc+na', 'x-a.i$@3+x-c+x-a.i$'), ('nd', 'x-a.i$*2'), ('x-p>nd', 'x-p>x-a.i$*2'), ('pl*2>x-c.j$', 'x-a.q*2>x-b>x-c.j$')]
+            D2 = [('na*3', 'x-a.i$*3'), ('nb*2', 'x-a{t$$}*2>x-b[k=$]'), ('(na+x-z)*2', '(x-a.i$+x-z)*2'), ('x-p*3>na', 'x-p*3>x-a.i$'), ('nc*2', '(x-a.i$@3+x-c)*2'),
+                  ('x-p*2>nb', 'x-p*2>x-a{t$$}>x-b[k=$]'), ('(x-q>na)*2', '(x-q>x-a.i$)*2'), ('na.c$*2', 'x-a.i$.c$*2')]
+            for dom, plist in (('d1', D1), ('d2', D2)):
+                for a, d in plist:
+                    for syntax in ('html', 'jsx', 'pug'):
+                        self_cfg = {'syntax': syntax, 'snippets': ntbl, 'options': {'output.format': False}} if syntax != 'pug' else {'syntax': syntax, 'snippets': ntbl}
+                        ctx.ev('numbering-pair:' + dom)
+                        mon.pair('numbering:' + dom, a, d, self_cfg, 'numbering-pair', 'oracle:alias-equals-definition')
             # parse-level settings of the call reach the definitions: the repeat limit (both spellings of the key) and JSX mode
             ptbl = {'st': 'span.star*5', 'rw': 'x-c*4>x-d*2', 'cp': 'Foo.Bar', 'cq': 'Foo.Bar>Baz.q*3', 'lk': 'a[href]*3'}
             for extra in ({'maxRepeat': 3}, {'max_repeat': 2}, {'syntax': 'jsx'}, {'syntax': 'jsx', 'maxRepeat': 2}, {'maxRepeat': 1}, {'syntax': 'vue', 'max_repeat': 4}):
@@ -408,4 +421,15 @@ def replay(case, ctx):
             ctx.violation('exception', case, {'exc': list(core.exc_site(r[1]))})
 
 
-CLASSIFIERS = {}
+def _numbering(rec):
+    """A definition is parsed on its own, before it is put in the alias's place: a `$` written inside it sees no repeater and is always 1.
+    Explains only D2 numbering pairs (repeater on or around the alias, `$` inside the definition) whose two outputs are equal once every
+    run of digits is blanked - any other difference in that domain is reported."""
+    c = rec['case']
+    if rec['kind'] != 'alias-differs-from-definition' or c.get('label') != 'numbering:d2':
+        return False
+    a, d = rec['detail'].get('alias_output', ''), rec['detail'].get('definition_output', '')
+    return a != d and re.sub(r'\d+', '#', a) == re.sub(r'\d+', '#', d)
+
+
+CLASSIFIERS = {'C14-numbering-inside-definition-ignores-alias-repeater': _numbering}
